@@ -646,6 +646,11 @@ func (g *GoFakeS3) createObjectBrowserUpload(bucket string, w http.ResponseWrite
 	if err := r.ParseMultipartForm(_24MB); nil != err {
 		return ErrMalformedPOSTRequest
 	}
+	// The form parser stops at the closing boundary. Whether the request body
+	// is as long as its Content-Length only shows when it is read to the end:
+	if _, err := io.Copy(ioutil.Discard, r.Body); err != nil {
+		return ErrIncompleteBody
+	}
 
 	keyValues := r.MultipartForm.Value["key"]
 	if len(keyValues) != 1 {
